@@ -455,7 +455,7 @@ impl OpSpace {
         let (op, sub) = self.params[(idx % np) as usize].clone();
         let tys = self.args.get(idx / np);
         let args = (0..tys.len()).map(Arg::In).collect();
-        Program { inputs: tys, steps: vec![Step { op, args, sub: sub.map(Box::new) }] }
+        Program { inputs: tys, steps: vec![Step { op, args, sub: sub.map(Box::new) }], out: None }
     }
 }
 
@@ -463,19 +463,20 @@ fn plain(ops: Vec<Operation>) -> Vec<(Operation, Option<Program>)> {
     ops.into_iter().map(|o| (o, None)).collect()
 }
 
-fn step(op: Operation, args: Vec<Arg>) -> Step {
+pub fn step(op: Operation, args: Vec<Arg>) -> Step {
     Step { op, args, sub: None }
 }
 
 fn call_subs() -> Vec<Program> {
     let i32a = array_type(vec![2], INT32);
     vec![
-        Program { inputs: vec![scalar_type(UINT8)], steps: vec![step(Operation::NOP, vec![Arg::In(0)])] },
-        Program { inputs: vec![i32a.clone(), i32a.clone()], steps: vec![step(Operation::Add, vec![Arg::In(0), Arg::In(1)])] },
-        Program { inputs: vec![], steps: vec![step(Operation::Ones(array_type(vec![3], BIT)), vec![])] },
+        Program { inputs: vec![scalar_type(UINT8)], steps: vec![step(Operation::NOP, vec![Arg::In(0)])], out: None },
+        Program { inputs: vec![i32a.clone(), i32a.clone()], steps: vec![step(Operation::Add, vec![Arg::In(0), Arg::In(1)])], out: None },
+        Program { inputs: vec![], steps: vec![step(Operation::Ones(array_type(vec![3], BIT)), vec![])], out: None },
         Program {
             inputs: vec![vector_type(2, scalar_type(UINT8))],
             steps: vec![step(Operation::VectorToArray, vec![Arg::In(0)]), step(Operation::Sum(vec![0]), vec![Arg::Step(0)])],
+            out: None,
         },
     ]
 }
@@ -491,6 +492,7 @@ fn iterate_subs() -> Vec<Program> {
                 step(Operation::Add, vec![Arg::In(0), Arg::In(1)]),
                 step(Operation::CreateTuple, vec![Arg::Step(0), Arg::In(0)]),
             ],
+            out: None,
         },
         // state i32[2], x u8 -> (state * state, a2b(x))
         Program {
@@ -500,16 +502,18 @@ fn iterate_subs() -> Vec<Program> {
                 step(Operation::A2B, vec![Arg::In(1)]),
                 step(Operation::CreateTuple, vec![Arg::Step(0), Arg::Step(1)]),
             ],
+            out: None,
         },
         // output is not a tuple
-        Program { inputs: vec![u8s.clone(), u8s.clone()], steps: vec![step(Operation::Add, vec![Arg::In(0), Arg::In(1)])] },
+        Program { inputs: vec![u8s.clone(), u8s.clone()], steps: vec![step(Operation::Add, vec![Arg::In(0), Arg::In(1)])], out: None },
         // state type changes
         Program {
             inputs: vec![u8s.clone(), u8s.clone()],
             steps: vec![step(Operation::A2B, vec![Arg::In(0)]), step(Operation::CreateTuple, vec![Arg::Step(0), Arg::In(1)])],
+            out: None,
         },
         // one input only
-        Program { inputs: vec![u8s.clone()], steps: vec![step(Operation::CreateTuple, vec![Arg::In(0), Arg::In(0)])] },
+        Program { inputs: vec![u8s.clone()], steps: vec![step(Operation::CreateTuple, vec![Arg::In(0), Arg::In(0)])], out: None },
     ]
 }
 
